@@ -592,7 +592,7 @@ def pos_key(f):
 
 DEFECTS = ['none', 'none', 'drop1', 'dropk', 'drop_volume', 'drop_position', 'duplicate', 'misfiled_dup',
            'tie_straddle', 'gap', 'gap', 'rows', 'cols', 'spacing_lo', 'spacing_hi', 'orient_lo', 'orient_hi',
-           'nopix', 'collide', 'missing_key', 'extra_position', 'vec_uneven', 'bad_ordinate']
+           'nopix', 'collide', 'missing_key', 'extra_position', 'vec_uneven', 'bad_ordinate', 'vec_straddle', 'vec_straddle', 'vec_straddle', 'vec_move']
 
 
 def apply_defect(rng, cfg, files, defect):
@@ -711,6 +711,51 @@ def apply_defect(rng, cfg, files, defect):
             if 'RepetitionTime' in cfg['consts']:
                 f['tags']['RepetitionTime'] = 750.0
             files.append(f)
+    elif defect in ('vec_straddle', 'vec_move'):
+        # files MOVED between vector components: the total still factors and every slice position still occurs
+        # equally often, but per-vector counts are no longer multiples of S.  vec_straddle: the moved files come
+        # from the volume of block vi that is last in sort order and get a time value below every time of block
+        # vi+1 (or the mirror image), so exactly one volume-sized chunk of the sorted list straddles the two
+        # vector values and still holds every slice position once.
+        o_v, o_t = cfg['vector_order'], cfg['time_order']
+        if o_v is not None and o_t is not None and o_t.get('abs') is None and V >= 2 and S >= 2:
+            vkey, tkey = o_v['key'], o_t['key']
+            asc = cfg['direction'] == 1
+
+            def rank(f):
+                return f['cell'][0] if asc else S - 1 - f['cell'][0]
+
+            def tnum(f):
+                return _num(f['tags'][tkey])
+            if defect == 'vec_straddle':
+                vi = rng.randrange(V - 1)
+                up = rng.random() < 0.5
+                which = rng.choice(['first', 'last', 'middle', 'subset'])
+                if which == 'first':
+                    ranks = [0]
+                elif which == 'last':
+                    ranks = [S - 1]
+                elif which == 'middle':
+                    ranks = [S // 2]
+                else:
+                    ranks = [r for r in range(S) if rng.random() < 0.5] or [0]
+                    if len(ranks) == S:
+                        ranks = ranks[:-1]
+                src_v = vi if up else vi + 1
+                block = [f for f in files if f['cell'][2] == src_v]
+                edge = max(block, key=tnum) if up else min(block, key=tnum)
+                t_edge = edge['cell'][1]
+                note.update({'vi': vi, 'up': up, 'ranks': ranks})
+                for f in block:
+                    if f['cell'][1] == t_edge and rank(f) in ranks:
+                        f['tags'][vkey] = tag_value(vkey, 1 + 2 * (vi + 1 if up else vi))
+                        f['tags'][tkey] = tag_value(tkey, 1 if up else 97)
+            else:
+                for k in range(rng.randint(1, 2)):
+                    f = files[pick()]
+                    v2 = rng.choice([v for v in range(V) if v != f['cell'][2]])
+                    f['tags'][vkey] = tag_value(vkey, 1 + 2 * v2)
+                    f['tags'][tkey] = tag_value(tkey, rng.choice([1, 97]) + k)
     elif defect == 'vec_uneven':
         if cfg['vector_order'] is not None and V >= 2:
             key = cfg['vector_order']['key']
